@@ -36,7 +36,10 @@ FAST_MS = 1500
 
 
 class Ctx:
-    def __init__(self, plan=None, max_decisions=4000, timeout_ms=None):
+    def __init__(self, plan=None, max_decisions=4000, timeout_ms=None, deadline=None, max_unwind=None):
+        self.deadline = deadline
+        self.max_unwind = max_unwind or MAX_UNWIND
+        self.sites = {}
         self.solver = z3.Solver()
         self.timeout_ms = timeout_ms or QUERY_TIMEOUT_MS
         self.last_solver = self.solver
@@ -157,6 +160,15 @@ class Ctx:
         i = len(self.trail)
         if i >= self.max_decisions:
             raise UnwindLimit("more than %d branch decisions on one path" % self.max_decisions)
+        if self.deadline and time.time() > self.deadline:
+            raise UnwindLimit("deadline reached inside a path")
+        # loop unwinding assertion: a branch at one source location of the repository taken more than
+        # max_unwind times on one path means a loop whose trip count the inputs do not bound
+        site = _repo_site()
+        if site is not None:
+            n = self.sites[site] = self.sites.get(site, 0) + 1
+            if n > self.max_unwind:
+                raise UnwindLimit("loop at %s:%d unrolled more than %d times on one path" % (site[0], site[1], self.max_unwind))
         if i < len(self.plan):
             b, done = self.plan[i]
             self.trail.append([b, done])
@@ -306,6 +318,26 @@ class Ctx:
         return v
 
 
+MAX_UNWIND = int(os.environ.get("VERIF_MAX_UNWIND", "300"))
+_REPO_PREFIX = None
+
+
+def _repo_site():
+    global _REPO_PREFIX
+    import sys
+    if _REPO_PREFIX is None:
+        _REPO_PREFIX = os.path.join(os.environ.get("VERIF_REPO", "/repo"), "")
+    f = sys._getframe(2)
+    depth = 0
+    while f is not None and depth < 40:
+        fn = f.f_code.co_filename
+        if fn.startswith(_REPO_PREFIX):
+            return (fn[len(_REPO_PREFIX):], f.f_lineno)
+        f = f.f_back
+        depth += 1
+    return None
+
+
 def _boundary_candidates(e, limit=36):
     import sys
     repo = os.environ.get("VERIF_REPO", "/repo")
@@ -409,13 +441,13 @@ class ExploreResult:
 
 
 def explore(fn, max_paths=20000, max_decisions=4000, stop_after_violations=3, timeout_ms=None,
-            deadline=None):
+            deadline=None, max_unwind=None):
     """Run fn(ctx) once per feasible path (depth-first, replaying decision prefixes)."""
     global CTX
     res = ExploreResult()
     plan = []
     while True:
-        c = Ctx(plan=plan, max_decisions=max_decisions, timeout_ms=timeout_ms)
+        c = Ctx(plan=plan, max_decisions=max_decisions, timeout_ms=timeout_ms, deadline=deadline, max_unwind=max_unwind)
         CTX = c
         for h in PATH_HOOKS:
             h()
